@@ -7,6 +7,7 @@
 (*           seen  = content version the snapshot recorded (SnapStat)       *)
 (*           saved = the tree_state file was really rewritten (SaveState)   *)
 (*           disk  = content version on disk after the step                 *)
+(*           touched = tree_state was not rewritten but its mtime changed    *)
 (* The judge re-runs the SAME action operators of WcMtime along the steps   *)
 (* (so the ghost `must` is the model's, not the harness's) and evaluates    *)
 (* the contract SeenOK on what the implementation reported.                 *)
@@ -46,7 +47,8 @@ Run(r, i, acc) ==
            LET s3 == IF o.saved = Dirty(s) THEN s2
                      ELSE IF o.saved THEN [s EXCEPT !.rm = s.mm, !.rc = s.mc, !.own = s.clock, !.cmd = "idle"]
                      ELSE [s EXCEPT !.cmd = "idle"]
-           IN Run(r, i + 1, [acc EXCEPT !.s = s3, !.div = acc.div \/ o.saved # Dirty(s)])
+           \* o.touched: the state file was not rewritten but its mtime moved (reported as divergence)
+           IN Run(r, i + 1, [acc EXCEPT !.s = s3, !.div = acc.div \/ o.saved # Dirty(s) \/ o.touched])
          ELSE Run(r, i + 1, [acc EXCEPT !.s = s2])
 
 Judge(r) ==
